@@ -51,7 +51,7 @@ PROP = {
     ],
     "assumptions": [
         "the registry model M_reg (lean/WmModel/GcReg.lean: RWMutex with writer announcement, topic mutexes, closedLock, WaitGroup, dispatchers) "
-        "carries blocking_publish_waits and the D11 witness; it is tied to the code by the function skeletons and by trace inclusion of the recorded API+hook streams (lean/WmModel/GcRegConf.lean); "
+        "carries blocking_publish_waits and the D11 witness; it is tied to the code by the function skeletons and by trace inclusion of the recorded API+hook streams (lean/WmModel/GcRegConf.lean, GcProdConf.lean (registry + subscription streams merged, against the composition M_prod)); "
         "publisher order and 'returns at all' are decided by the monitors on recorded traces",
         "known finding D11 (nested publish + pending writer deadlocks a blocking Publish) is recorded, see known-findings.json",
     ],
